@@ -130,19 +130,107 @@ func registryInvariant(p *load.Prog, reg map[*ssa.Global]*types.Named) (ok bool,
 	if is == nil || len(is.Blocks) == 0 {
 		return false, "Tag.Is not found"
 	}
-	exact := false
-	if len(is.Blocks) == 1 {
-		if ret, isRet := is.Blocks[0].Instrs[len(is.Blocks[0].Instrs)-1].(*ssa.Return); isRet && len(ret.Results) == 1 {
-			if bo, isBo := ret.Results[0].(*ssa.BinOp); isBo && bo.Op == token.EQL {
-				px, fxi := fieldOfParam(bo.X)
-				py, fyi := fieldOfParam(bo.Y)
-				if px != nil && py != nil && px != py && fxi == fyi {
-					if b, isB := bo.X.Type().Underlying().(*types.Basic); isB && b.Kind() == types.String {
-						exact = true
+	// the tag string of a parameter: the field itself, or an accessor method that returns that field and nothing else
+	tagStr := func(v ssa.Value) (*ssa.Parameter, int) {
+		if prm, fi := fieldOfParam(v); prm != nil {
+			if b, isB := v.Type().Underlying().(*types.Basic); isB && b.Kind() == types.String {
+				return prm, fi
+			}
+			return nil, 0
+		}
+		c, ok := v.(*ssa.Call)
+		if !ok || len(c.Call.Args) != 1 {
+			return nil, 0
+		}
+		acc := c.Call.StaticCallee()
+		if acc == nil || !p.IsRepoFunc(acc) || len(acc.Blocks) != 1 || len(acc.Params) != 1 {
+			return nil, 0
+		}
+		ret, ok := acc.Blocks[0].Instrs[len(acc.Blocks[0].Instrs)-1].(*ssa.Return)
+		if !ok || len(ret.Results) != 1 {
+			return nil, 0
+		}
+		ap, fi := fieldOfParam(ret.Results[0])
+		if ap == nil {
+			return nil, 0
+		}
+		// the accessor's receiver is a parameter of Tag.Is (directly, or a copy of a value receiver)
+		var prm *ssa.Parameter
+		switch a := c.Call.Args[0].(type) {
+		case *ssa.Parameter:
+			prm = a
+		case *ssa.UnOp:
+			if al, isAl := a.X.(*ssa.Alloc); isAl && a.Op == token.MUL {
+				for _, ref := range *al.Referrers() {
+					if st, isSt := ref.(*ssa.Store); isSt && st.Addr == ssa.Value(al) {
+						prm, _ = st.Val.(*ssa.Parameter)
 					}
 				}
 			}
 		}
+		if prm == nil {
+			return nil, 0
+		}
+		return prm, fi
+	}
+	// exact: true is answered exactly on the paths that established equality of the two tag strings
+	exact := true
+	paths, capped := simplePaths(is.Blocks[0], map[*ssa.BasicBlock]bool{}, 200)
+	if capped {
+		exact = false
+	}
+	nRet := 0
+	for _, path := range paths {
+		last := path[len(path)-1]
+		ret, isRet := last.Instrs[len(last.Instrs)-1].(*ssa.Return)
+		if !isRet || len(ret.Results) != 1 || !pathConstFeasible(path) {
+			continue
+		}
+		nRet++
+		// what the path established
+		established := 0 // +1 equal, -1 different
+		for i := 0; i+1 < len(path); i++ {
+			iff, isIf := path[i].Instrs[len(path[i].Instrs)-1].(*ssa.If)
+			if !isIf {
+				continue
+			}
+			bo, isBo := iff.Cond.(*ssa.BinOp)
+			if !isBo || (bo.Op != token.EQL && bo.Op != token.NEQ) {
+				continue
+			}
+			px, fxi := tagStr(bo.X)
+			py, fyi := tagStr(bo.Y)
+			if px == nil || py == nil || px == py || fxi != fyi {
+				continue
+			}
+			eq := (bo.Op == token.EQL) == (path[i+1] == path[i].Succs[0])
+			if eq {
+				established = 1
+			} else {
+				established = -1
+			}
+		}
+		if val, known := evalBoolOnPath(ret.Results[0], path, len(path)-1); known {
+			if (val && established != 1) || (!val && established != -1) {
+				exact = false
+			}
+			continue
+		}
+		// the comparison itself is returned
+		base, neg, okR := resolveFlag(ret.Results[0], path)
+		bo, isBo := base.(*ssa.BinOp)
+		if !okR || !isBo || (bo.Op != token.EQL && bo.Op != token.NEQ) {
+			exact = false
+			continue
+		}
+		px, fxi := tagStr(bo.X)
+		py, fyi := tagStr(bo.Y)
+		if px == nil || py == nil || px == py || fxi != fyi || (bo.Op == token.NEQ) != neg {
+			exact = false
+		}
+	}
+	if nRet == 0 {
+		exact = false
 	}
 	if !exact {
 		return false, "Tag.Is is no longer exact equality of the two tag strings: NodesWithTag(T) can return nodes that are not of the kind registered for T"
@@ -1043,6 +1131,62 @@ func (c *e1ctx) ruleSort(s *e1.Site) (string, bool) {
 	if ia.Index != ssa.Value(fn.Params[0]) && ia.Index != ssa.Value(fn.Params[1]) {
 		return "", false
 	}
+	// factory form: the less function is made by a helper F(slice) that returns the closure; every use of F in the
+	// repository is sort.Slice(s, F(s)) / sort.SliceStable(s, F(s)) with the same s
+	if fvDirect, isFV := ia.X.(*ssa.FreeVar); isFV {
+		// captured by value: the free variable is bound to a parameter of the factory
+		prmIdx := -1
+		made := false
+		for _, b := range par.Blocks {
+			for _, ins := range b.Instrs {
+				mc, ok := ins.(*ssa.MakeClosure)
+				if !ok || mc.Fn != fn {
+					continue
+				}
+				for i, f := range fn.FreeVars {
+					if f == fvDirect {
+						for pi, pp := range par.Params {
+							if mc.Bindings[i] == ssa.Value(pp) {
+								prmIdx = pi
+							}
+						}
+					}
+				}
+				// the closure is what the factory returns
+				for _, ref := range *mc.Referrers() {
+					if _, isRet := ref.(*ssa.Return); isRet {
+						made = true
+					}
+				}
+			}
+		}
+		if prmIdx < 0 || !made {
+			return "", false
+		}
+		uses := 0
+		for _, g := range c.p.Repo {
+			for _, fc := range su.CallsTo(g, par) {
+				uses++
+				okUse := false
+				for _, ref := range *fc.Referrers() {
+					sc, isCall := ref.(*ssa.Call)
+					if !isCall || !(su.CalleeIs(&sc.Call, "sort", "Slice") || su.CalleeIs(&sc.Call, "sort", "SliceStable")) || sc.Call.Args[1] != ssa.Value(fc) {
+						continue
+					}
+					if mi, isMI := sc.Call.Args[0].(*ssa.MakeInterface); isMI && mi.X == fc.Call.Args[prmIdx] {
+						okUse = true
+					}
+				}
+				if !okUse {
+					return "", false
+				}
+			}
+		}
+		if uses == 0 {
+			return "", false
+		}
+		return fmt.Sprintf("R-sort: index is a parameter of a less function made by %s(slice); each of its %d use(s) is sort.Slice over that same slice", par.Name(), uses), true
+	}
 	ld, ok := ia.X.(*ssa.UnOp)
 	if !ok {
 		return "", false
@@ -1081,7 +1225,71 @@ func (c *e1ctx) ruleSort(s *e1.Site) (string, bool) {
 			}
 		}
 	}
-	return "", false
+	// factory form: par(slice) returns this closure, which captured par's parameter (through its cell); every use of
+	// par in the repository is sort.Slice(s, par(s)) / sort.SliceStable(s, par(s)) with the same s
+	for _, ref := range *fv.Referrers() {
+		if st, ok := ref.(*ssa.Store); ok && st.Addr == ssa.Value(fv) {
+			return "", false
+		}
+	}
+	prmIdx, made := -1, false
+	for _, b := range par.Blocks {
+		for _, ins := range b.Instrs {
+			mc, ok := ins.(*ssa.MakeClosure)
+			if !ok || mc.Fn != fn || fvIdx < 0 || fvIdx >= len(mc.Bindings) {
+				continue
+			}
+			cell, isAlloc := mc.Bindings[fvIdx].(*ssa.Alloc)
+			if !isAlloc {
+				continue
+			}
+			stores := 0
+			for _, ref := range *cell.Referrers() {
+				if st, ok := ref.(*ssa.Store); ok && st.Addr == ssa.Value(cell) {
+					stores++
+					for pi, pp := range par.Params {
+						if st.Val == ssa.Value(pp) {
+							prmIdx = pi
+						}
+					}
+				}
+			}
+			if stores != 1 {
+				prmIdx = -1
+			}
+			for _, ref := range *mc.Referrers() {
+				if _, isRet := ref.(*ssa.Return); isRet {
+					made = true
+				}
+			}
+		}
+	}
+	if prmIdx < 0 || !made {
+		return "", false
+	}
+	uses := 0
+	for _, g := range c.p.Repo {
+		for _, fc := range su.CallsTo(g, par) {
+			uses++
+			okUse := false
+			for _, ref := range *fc.Referrers() {
+				sc, isCall := ref.(*ssa.Call)
+				if !isCall || !(su.CalleeIs(&sc.Call, "sort", "Slice") || su.CalleeIs(&sc.Call, "sort", "SliceStable")) || sc.Call.Args[1] != ssa.Value(fc) {
+					continue
+				}
+				if mi, isMI := sc.Call.Args[0].(*ssa.MakeInterface); isMI && mi.X == fc.Call.Args[prmIdx] {
+					okUse = true
+				}
+			}
+			if !okUse {
+				return "", false
+			}
+		}
+	}
+	if uses == 0 {
+		return "", false
+	}
+	return fmt.Sprintf("R-sort: index is a parameter of a less function made by %s(slice); each of its %d use(s) is sort.Slice over that same slice", par.Name(), uses), true
 }
 
 // ruleConsume: t[k] where (t, err) = Tokens.Consume(kinds...) with more than k
